@@ -424,7 +424,10 @@ func (s *Shard) SearchPoints(searchRequest models.SearchRequest) ([]models.Searc
 				}
 				res, err := dec.Query(p)
 				if err != nil {
-					return nil, fmt.Errorf("could not select point data, %s: %w", p, err)
+					// The path does not resolve for this point, e.g. "a.b" is
+					// selected but "a" is a plain value here, so the property
+					// is missing rather than the whole search failing.
+					continue
 				}
 				if len(res) == 0 {
 					// Didn't find anything for this property
